@@ -652,9 +652,44 @@ func (c *Ctx) lOne(n int, bits uint, o lOpt, root int) {
 	w.emit("c10.hist", files, texts, []map[string]any{{"k": "load", "root": root}})
 }
 
+// plain graph on n files given as adjacency lists (directive order = list order)
+func (c *Ctx) lAdj(op string, adj [][]int, depth int, ops []map[string]any) {
+	n := len(adj)
+	lim := include.Limits{MaxFileSizeBytes: 1 << 20, MaxIncludeDepth: 50}
+	if depth > 0 {
+		lim.MaxIncludeDepth = depth
+	}
+	w := newLWorld(c, n, make([]string, n), lim)
+	defer w.done()
+	specs := make([]lSpec, n)
+	for u := range adj {
+		specs[u] = lSpec{Ver: u}
+		for _, v := range adj[u] {
+			specs[u].Edges = append(specs[u].Edges, lEdge{To: v})
+		}
+	}
+	files, texts := w.initial(specs)
+	w.emit(op, files, texts, ops)
+}
+
+// the inputs of DESIGN section 8 rows 8, 9, 10, 21 (also kept in replays/C10, replays/C11)
+func lWitnesses10(c *Ctx) {
+	load0 := []map[string]any{{"k": "load", "root": 0}}
+	c.lAdj("c10.hist", [][]int{{1, 2}, {3}, {3}, {}}, 0, load0)  // diamond
+	c.lAdj("c10.hist", [][]int{{1, 2, 3}, {}, {}, {}}, 2, load0) // three siblings, depth limit 2
+	c.lAdj("c10.hist", [][]int{{1, 1}, {}}, 0, load0)            // the same directive twice
+}
+
+func lWitnesses11(c *Ctx) {
+	twice := []map[string]any{{"k": "load", "root": 0}, {"k": "load", "root": 0}}
+	c.lAdj("c11.hist", [][]int{{1}, {2}, {3}, {}}, 0, twice) // chain, second load
+	c.lAdj("c11.hist", [][]int{{1, 1}, {}}, 0, twice)        // duplicate directive, warm cache
+}
+
 func genC10(c *Ctx) {
 	r := c.R
 	loaderMode(c)
+	lWitnesses10(c)
 	// 1. every directed graph on 1, 2, 3 files, plain spelling, root f0
 	for n := 1; n <= 3; n++ {
 		for bits := uint(0); bits < 1<<(uint(n*n)); bits++ {
@@ -778,6 +813,7 @@ func lRandSpec(c *Ctx, w *lWorld, u int, ver int) lSpec {
 func genC11(c *Ctx) {
 	r := c.R
 	loaderMode(c)
+	lWitnesses11(c)
 	maxLen := c.N(4, 6)
 	hist := func(n int, bits uint, o lOpt, i int) {
 		w, specs := c.lGraph(n, bits, o)
